@@ -120,7 +120,7 @@ PROPS = {
                     'identity, dyn->static forwarding. Structural and complete over the impl table; no execution.'),
     ),
     'C13': dict(
-        rules=[r_serde.s17_serde_coverage, r_serde.s02_manual_serde_tables, r_serde.s10_state_purity, r_window.s03_sibling_constructors,
+        rules=[r_serde.s17_serde_coverage, r_serde.s02_manual_serde_tables, r_serde.s10_state_purity, r_window.s03_sibling_constructors, r_winv.a07_deserialize_accepts_valid,
                lambda ctx: r_absint.a01_constructors(ctx, groups=('deserialize',), rule_id='A01d', min_entries=2,
                    title='hand-written Deserialize impls (Window, SMM): with the deserialised helper struct unconstrained (any buffer length, any index) no assertion of from_parts and no other panic is reachable: bad data leaves through Err')],
         feature_sets=_sets(['default'], ['default', 'nodefault']),
@@ -129,7 +129,7 @@ PROPS = {
                      'read from the expanded AST), so the serialized form is field-complete; (S02) the two hand-written Serialize impls '
                      'write exactly the field names their Deserialize helper structs read, each from the same-named field; (S10) state '
                      'is plain data, so behaviour is a function of the restored fields. (S03) the constructor siblings new / from_parts / Deserialize recompute the derived fields of Window and SMM by the same expressions, '
-                     'and SMM\'s restore path re-sorts its slice with the same numeric comparator new() uses. (A01d) no panic is reachable from the hand-written Deserialize impls for any decoded content.'),
+                     'and SMM\'s restore path re-sorts its slice with the same numeric comparator new() uses. (A01d) no panic is reachable from the hand-written Deserialize impls for any decoded content. (A07) conversely Window::deserialize returns Ok for every well-formed (buffer, oldest-index) pair up to the largest window new() builds, and rebuilds size == len, cursor == index.'),
         not_decided=['that the chosen format round-trips every f64/integer bit-exactly (a property of the format crate)',
                      'S03 compares the recomputed fields as expressions of the window length; the sortedness of SMM.slice is checked only as "a sort call precedes Ok"',
                      'behavioural equality of restored instances is inferred from field-completeness, not observed'],
@@ -259,7 +259,7 @@ PROPS = {
                     'enumerated and each is classified. Numeric equalities for long windows / f32 are not claimed.'),
     ),
     'C01': dict(
-        rules=[r_window.s01_iterator_discipline, r_window.s01c_single_slot_mapping, r_window.s03_sibling_constructors, r_winv.a04_window_invariant,
+        rules=[r_window.s01_iterator_discipline, r_window.s01c_single_slot_mapping, r_window.s03_sibling_constructors, r_winv.a04_window_invariant, r_winv.a07_deserialize_accepts_valid,
                lambda ctx: r_serde.s02_manual_serde_tables(ctx, only=('Window',)),
                lambda ctx: r_absint.a01_constructors(ctx, groups=('window-ctor', 'deserialize'), labels=('Window',), rule_id='A01w', min_entries=6,
                    title='Window::{new, from_parts, empty, From<Vec>, From<Box<[T]>>} and Window::deserialize: every reachable panic is one the constructor documents (# Panics); deserialize reaches none')],
@@ -286,7 +286,7 @@ PROPS = {
     ),
     'C04': dict(
         rules=[lambda ctx: r_mirror.s04_mirror_siblings(ctx, which=('highest_lowest::Highest', 'highest_lowest_index::HighestIndex')),
-               r_mirror.s05_mixed_float_equivalence, r_mirror.s04b_full_window_scans, r_winv.a06_index_methods,
+               r_mirror.s05_mixed_float_equivalence, r_mirror.s04b_full_window_scans, r_mirror.s04c_eviction_test, r_winv.a06_index_methods,
                lambda ctx: r_step.s07_step_once(ctx, only_types=('Highest', 'Lowest', 'HighestLowestDelta', 'HighestIndex', 'LowestIndex', 'SMM', 'MedianAbsDev'), rule_id='S07s')],
         feature_sets=_sets(['default']),
         explanation=('(S04) Lowest / LowestIndex are the HIR mirror image of Highest / HighestIndex (new, next, peek) under the swap >=/<=, '
@@ -294,7 +294,7 @@ PROPS = {
                      'to_bits() equality site is enumerated; a function that compares the same pair of floats by bits and by numeric order '
                      'while steering a search (recursion / fn pointer / loop) is reported: the relations disagree on signed zeros. (S07s) on every '
                      'normally returning path of next() the selection methods push the new value into their window exactly once and step each owned sub-method exactly once. '
-                     '(S04b) their rescans iterate over the complete window: no skipping, truncating or filtering adaptor. (A06) the age HighestIndex / LowestIndex keep and return is < the window length on every step '
+                     '(S04b) their rescans iterate over the complete window: no skipping, truncating or filtering adaptor. (S04c) on every returning path each cached extremum is replaced by the input, rescanned, or kept only after the evicted element was compared with it. (A06) the age HighestIndex / LowestIndex keep and return is < the window length on every step '
                      '(inductive invariant: established by new(), preserved by next() including the enumerate().fold() rescan, whose closure is iterated to an abstract fixpoint).'),
         not_decided=['that the max-side algorithms (cached extremum + rescan trigger, age counter, sorted-slice shifting) compute the maximum, '
                      'its age and the median for every order pattern: behaviour over all streams, not decided',
